@@ -48,6 +48,61 @@ class ScriptedStream:
         return piece
 
 
+class CutStream:
+    """read(n) returns the data up to the next cut offset (absolute offsets in units of the data), at most n units, at least
+    one unit unless the data are exhausted.  Logs (asked, got, offset after the call)."""
+
+    def __init__(self, data, cuts, name='<cuts>'):
+        self.data, self.pos = data, 0
+        self.cuts = sorted(set(c for c in cuts if 0 < c < len(data)))
+        self.ci = 0
+        self.log = []
+        self.name = name
+        self.closed_after = None
+
+    def read(self, size=-1):
+        while self.ci < len(self.cuts) and self.cuts[self.ci] <= self.pos:
+            self.ci += 1
+        end = self.cuts[self.ci] if self.ci < len(self.cuts) else len(self.data)
+        if size is not None and size >= 0:
+            end = min(end, self.pos + size)
+        piece = self.data[self.pos:end]
+        self.pos = end
+        self.log.append((size, len(piece), self.pos))
+        return piece
+
+
+def interesting_cuts(data, text_prefix_len=None):
+    """offsets (in units of data) at which a split is delicate: inside a multi-byte UTF-8 sequence, inside a UTF-16 code
+    unit or surrogate pair, between CR and LF, and around the refill boundaries of both back-ends (4096, 16384 multiples)"""
+    out = {'multi': [], 'crlf': [], 'refill': []}
+    n = len(data)
+    for b in (4096, 16384):
+        for k in range(b, n + 2, b):
+            out['refill'] += [x for x in (k - 1, k, k + 1) if 0 < x < n]
+    if isinstance(data, str):
+        for m in re.finditer('\r\n', data):
+            out['crlf'].append(m.start() + 1)
+        return out
+    if data[:2] in (codecs.BOM_UTF16_LE, codecs.BOM_UTF16_BE):
+        le = data[:2] == codecs.BOM_UTF16_LE
+        cr, lf = (b'\r\0', b'\n\0') if le else (b'\0\r', b'\0\n')
+        for i in range(2, n - 1, 2):
+            out['multi'].append(i + 1)                                   # inside a code unit
+            hi = data[i + 1] if le else data[i]
+            if 0xd8 <= hi <= 0xdb:
+                out['multi'] += [i + 2, i + 3]                           # inside a surrogate pair
+            if data[i:i + 2] == cr and data[i + 2:i + 4] == lf:
+                out['crlf'] += [i + 2, i + 1, i + 3]
+    else:
+        for i in range(n):
+            if 0x80 <= data[i] <= 0xbf:
+                out['multi'].append(i)                                   # before a continuation byte
+            elif data[i] == 13 and i + 1 < n and data[i + 1] == 10:
+                out['crlf'].append(i + 1)
+    return out
+
+
 # ------------------------------------------------------------------------------------------------ concretisation
 POOL = {
     'A': ['a', 'Z', '7', 'k', '_'],
@@ -253,6 +308,11 @@ def canon(o, seen=None):
     return '%s:%r' % (type(o).__name__, o)
 
 
+def reader_kind(e):
+    """class of a ReaderError: a character outside the printable set, or input that cannot be decoded"""
+    return 'unprintable' if e.encoding == 'unicode' or 'not allowed' in str(e.reason) else 'undecodable'
+
+
 def proj_error(yaml, e):
     """class, problem / context text, line / column of the marks; for reader errors kind and position (as reported)"""
     d = {'cls': type(e).__name__, 'problem': '', 'context': '', 'pl': -1, 'pc': -1, 'cl': -1, 'cc': -1, 'pi': -1,
@@ -260,7 +320,7 @@ def proj_error(yaml, e):
     if isinstance(e, yaml.reader.ReaderError):
         d['rd'] = True
         d['problem'] = str(e.reason)
-        d['rkind'] = 'unprintable' if e.encoding == 'unicode' or 'not allowed' in str(e.reason) else 'undecodable'
+        d['rkind'] = reader_kind(e)
         d['rpos'] = e.position
         d['rchar'] = e.character if isinstance(e.character, int) else -1
         return d
